@@ -8,6 +8,7 @@
 #define VF_MAXSZ (M + 2)
 #define VF_INPUTS(X) X(unsigned char, b, [M]) X(unsigned char, req, ) X(double, strtod_val, ) X(unsigned char, dp, )
 #include "vf.h"
+#include "vf_str.h"
 #include "vf_libc.h"
 #define malloc vf_malloc
 #define free vf_free
